@@ -232,7 +232,9 @@ def run_impl_oracle(laze, lines):
 
 
 def run_model(driver, lines):
-    return _parallel([driver], lines)
+    # the extracted model recurses structurally over long lists (e.g. a file of several thousand statements):
+    # give the OCaml process a large stack
+    return _parallel(["/bin/sh", "-c", "ulimit -s unlimited 2>/dev/null || ulimit -s 1000000 2>/dev/null; exec \"$0\"", driver], lines)
 
 
 def run_model_ev(laze, driver, reqs):
